@@ -36,7 +36,7 @@ func init() {
 		Finish:         finish,
 		MinEvaluations: map[string]int{"quick": 3000000, "thorough": 250000000},
 		MinNontrivial:  map[string]int{"quick": 500000, "thorough": 10000000},
-		RequiredObs:    []string{"aut>1", "rep:dense", "rep:sparse", "library_path_checked", "large_cell_graphs(n>=21)", "big_cell_cases", "perturbed_symmetric_graphs_checked", "circulants_with_one_edge_toggled", "earlier_result_rechecked_after_next_call"},
+		RequiredObs:    []string{"aut>1", "rep:dense", "rep:sparse", "library_path_checked", "large_cell_graphs(n>=21)", "big_cell_cases", "perturbed_symmetric_graphs_checked", "circulants_with_one_edge_toggled", "cycle_unions_checked(n>=21)", "earlier_result_rechecked_after_next_call"},
 	})
 }
 
@@ -458,6 +458,49 @@ func run(c *engine.Ctx) {
 				}
 			})
 		}
+	}
+
+	// (c4) disjoint unions of 4..6 short cycles, every multiset of lengths from {3,4,5,6} (thorough: {3..8}, up to 7
+	// components), hundreds of relabellings each: many isomorphic components give a search tree full of equivalent
+	// leaves in which the best leaf changes again and again while the children of one node are being tried, so that
+	// every automorphism-pruning rule is exercised across such changes (a defect of exactly this kind showed up only
+	// from 21 vertices on and for under 1 % of the relabellings)
+	maxLen, maxComp := c.Pick(6, 8), c.Pick(6, 7)
+	KU := c.Pick(400, 1000)
+	var multisets [][]int
+	var recU func(cur []int, from int)
+	recU = func(cur []int, from int) {
+		if len(cur) >= 4 {
+			multisets = append(multisets, append([]int{}, cur...))
+		}
+		if len(cur) == maxComp {
+			return
+		}
+		for l := from; l <= maxLen; l++ {
+			recU(append(cur, l), l)
+		}
+	}
+	recU(nil, 3)
+	for mi := range multisets {
+		mi := mi
+		if c.Thorough() && len(multisets[mi]) == 7 && mi%4 != int(c.Seed())%4 {
+			continue // thorough: a quarter of the 7-component unions, rotating with the seed
+		}
+		c.Unit(fmt.Sprintf("cycle-unions/%v", multisets[mi]), func() {
+			ls := multisets[mi]
+			g := rg.New(0)
+			name := ""
+			for _, l := range ls {
+				g = rg.Union(g, gen.Cycle(l))
+				name += fmt.Sprintf("C%d+", l)
+			}
+			name = strings.TrimSuffix(name, "+")
+			checkClass(c, "cycle-unions", name, g, KU, func(i int) *engine.Rng { return c.Rand("c01-cycle-unions-"+name, i) }, nil)
+			c.Obs("cycle_unions_checked", 1)
+			if g.N >= 21 {
+				c.Obs("cycle_unions_checked(n>=21)", 1)
+			}
+		})
 	}
 
 	// (d) seeded graphs: random small, regular, trees, unions, irregular graphs with big cells (n >= 21)
